@@ -6,7 +6,9 @@
    (GsoSpec.v); [handle_virtio_read] is the mirror of tun.handleVirtioRead (Gso.v), returning
    [Done n err segs] = (count returned, error class, buffers written).  The c_* clauses are the
    boolean checkers of GsoSpec.v that the check also evaluates on the real code's output. *)
+From Coq Require Import String.
 From WG Require Import Base.Prelude Gen.Constants Offload.Bytes Offload.Checksum Offload.Gso Offload.GsoSpec Offload.GsoProofs.
+From WG Require Import Offload.CsumAst Gen.CsumAst Offload.CsumAstProofs.
 Local Open Scope N_scope.
 
 (* The numbers the code and the property text name, as the code has them now. *)
@@ -162,3 +164,28 @@ Definition C17_segment_theorems :=
    C17_split_headers_kept, C17_split_checksums_valid, C17_all_segments, C17_too_many_segments,
    C17_gso_none_checksum_valid).
 Print Assumptions C17_segment_theorems.
+
+(* THE TIE TO THE SOURCE for the checksum routines (translator harness/cmd/csumast,
+   rerun on every check): Gen.CsumAst.noFold_body / checksum_body / pseudo_body
+   are the bodies of checksumNoFold, checksum and pseudoHeaderChecksumNoFold of
+   tun/checksum.go as terms of the deep-embedded language of Offload/CsumAst.v
+   (slices as values, little-endian loads, bits.Add64 carry chains, uint64
+   wrap-around, the 128-byte loop on fuel, the byte swap as a buffer store and
+   load).  For EVERY byte list and initial value the interpreted source is the
+   mirror model, hence the RFC 1071 sum: *)
+Theorem C17_source_checksumNoFold_is_the_model : forall b i, bytes b ->
+  run_noFold noFold_body b i = Some (checksumNoFold b i).
+Proof. exact ast_noFold_is_mirror. Qed.
+Print Assumptions C17_source_checksumNoFold_is_the_model.
+
+Theorem C17_source_checksum_is_rfc1071 : forall b i, bytes b -> i < two64 ->
+  exists r, run_checksum noFold_body checksum_body b i = Some r /\ r <= 65535 /\
+            r mod 65535 = (i + sum16 b) mod 65535.
+Proof. exact ast_checksum_rfc1071. Qed.
+Print Assumptions C17_source_checksum_is_rfc1071.
+
+Theorem C17_source_pseudo_header_is_the_model : forall proto src dst tl,
+  bytes src -> bytes dst -> proto < 256 -> tl < 65536 ->
+  run_pseudo noFold_body pseudo_body proto src dst tl = Some (pseudoHeaderChecksumNoFold proto src dst tl).
+Proof. exact ast_pseudo_is_mirror. Qed.
+Print Assumptions C17_source_pseudo_header_is_the_model.
